@@ -5,6 +5,10 @@
     == / !=, parenthesised sub-expressions), exact dyadic arithmetic (value = n/16), typed rules (real division, truncating
     remainder, integral powers, bitwise on integers, comparisons -> 1/0, truth = > 0, == / != numeric when either side is a
     number, textual otherwise), and Admissible(e) = the results of ALL parse trees consistent with the documented groups.
+(I) spec/QExprImpl.tla + QExprImplDefs.tla: transcription of the operator-precedence walk of TemplateCore::evaluate; TLC checks for
+    EVERY sequence of up to 4 (thorough: 5) of the 16 operators that its value is the value of an admissible parse tree, and rejects
+    the earlier / seeded variants of the continuation test ("leq-after-nested", "always-continue").  The batch oracle binds the
+    transcription to the engine: the observed value must be the transcribed walk's value on every recorded event (else model drift).
 (B) code -> spec (E5): every 1- and 2-operand expression and a large sample (thorough: all) of the 3-operand expressions over
     10 operands x 16 operators, plus random 4..6-operand expressions with parentheses, in random whitespace / literal spellings,
     through ParseExpressions + Evaluate and through {math:}, {if case=}, <if case=> from exact-size buffers under ASan/UBSan
@@ -112,6 +116,13 @@ def gen(c):
 def main():
     c = vf.Check("C04")
     (asan,) = c.build("h_template.asan")
+    r = c.tlc("QExprImpl", "QExprImpl_current5" if c.thorough else "QExprImpl_current", timeout=3000)
+    c.expect_holds(r, "QExprImpl: the precedence walk yields an admissible parse tree's value for every operator sequence")
+    c.stage("model", distinct_states=r.distinct)
+    for cfg in ("QExprImpl_leq-after-nested", "QExprImpl_always-continue"):
+        r = c.tlc("QExprImpl", cfg, timeout=900, workers=4)
+        if not r.violated:
+            raise vf.MachineryError("%s: the earlier / seeded continuation test is not rejected" % cfg)
     cases = gen(c)
     inp = os.path.join(c.out, "exprs.txt")
     with open(inp, "w") as f:
